@@ -549,3 +549,25 @@ func FuzzC10Positions(f *testing.F) {
 		}
 	})
 }
+
+// TestC10Large: the span laws on large flat programs.
+func TestC10Large(t *testing.T) {
+	st := harn.NewStats(env, "large")
+	defer st.Flush()
+	rapid.Check(t, func(rt *rapid.T) {
+		g := gen.NewG(rt, gen.Cfg{MaxDepth: 1, MaxOps: 2, JoinDepth: 0, Compilable: true})
+		prog, class, n := genLargeProgram(rt, g)
+		pr := gen.Print(prog)
+		src := gen.Layout(pr, g.Seps(len(pr.Toks))).Src
+		st.Eval()
+		st.Class(class)
+		st.NonTrivial(fmt.Sprint(class, n))
+		msg, parsed := checkPositions(src)
+		if !parsed && msg == "" {
+			rt.Fatalf("harness: large grammar program rejected (C07's business)")
+		}
+		if msg != "" {
+			st.Violation(rt, "C10", "positions", mkStrCase(src), "%s program of size %d: %s", class, n, trunc(msg, 600))
+		}
+	})
+}
